@@ -376,6 +376,20 @@ func TestVerifC17(t *testing.T) {
 				bad = true
 				return
 			}
+			// C01 on the wire: for static, non-deprecated configurations every RA
+			// the advertiser transmitted so far is exactly the expected one
+			if !wild && !depr {
+				for _, e := range h.tr.Events() {
+					if e.Kind == "write_begin" && e.RA != nil {
+						if dd := model.DiffRA(want, *e.RA); dd != "" {
+							r.Violation(id, "transmitted-ra-content", "a transmitted RA differs from the configuration: "+dd, det)
+							bad = true
+							return
+						}
+						r.Count("transmitted_ras_compared", 1)
+					}
+				}
+			}
 			// L3: re-initialising — link event, the next successful dial is held.
 			h.watchC <- 2
 			time.Sleep(300 * time.Millisecond) // first retry fails (k=1), second (k=2) is held
